@@ -5,6 +5,7 @@ CONSTANTS QCap = 2 MaxPend = 1 MaxOps = 5
           NoInboundFilter = FALSE NoNullCheck = FALSE AnyoneOpens = FALSE
           RepIds = {5, 7}
           TrackHistory = TRUE FlowCache = "none" HostIps = {"x", "y"} HostPorts = {1}
+          StaleVerdict = "none" HopFollowsPeer = FALSE FlagChoices = {} SignedSrcs = {}
           SrcSet = {"prev"} DkSet = {"v4", "dom4"}
 INVARIANT TypeOK
 INVARIANT EmitOnlyAllowed
